@@ -368,6 +368,9 @@ func (v AudioSamplingRate) String() string {
 // Parse the FLV sampling rate to Hz.
 func (v AudioSamplingRate) ToHz() int {
 	flvSR := []int{5512, 11025, 22050, 44100}
+	if int(v) >= len(flvSR) {
+		return 0
+	}
 	return flvSR[v]
 }
 
@@ -393,8 +396,20 @@ func (v *AudioSamplingRate) From(a aac.SampleRateIndex) {
 
 // Parse the Opus sampling rate to Hz.
 func (v AudioSamplingRate) OpusToHz() int {
-	opusSR := []int{8000, 12000, 16000, 24000, 48000}
-	return opusSR[v]
+	switch v {
+	case AudioSamplingRateNB8kHz:
+		return 8000
+	case AudioSamplingRateMB12kHz:
+		return 12000
+	case AudioSamplingRateWB16kHz:
+		return 16000
+	case AudioSamplingRateSWB24kHz:
+		return 24000
+	case AudioSamplingRateFB48kHz:
+		return 48000
+	default:
+		return 0
+	}
 }
 
 // For Opus, convert aac sample rate index to FLV sampling rate.
